@@ -49,6 +49,9 @@ func runC01(p *Prog, r *Report) {
 	if want("C01.9") {
 		ruleMemGet(p, r, "C01.9")
 	}
+	if want("C01.10") {
+		ruleBaseLevel(p, r, "C01.10")
+	}
 }
 
 // ruleLookupOrder: C01.2 (also C05.1, C11.6).
